@@ -107,6 +107,54 @@ Theorem C07_uval_sval_eq : forall w n a b, 0 < w -> wf w n a -> wf w n b ->
 Proof. exact uval_sval_eq. Qed.
 Print Assumptions C07_uval_sval_eq.
 
+(* ---- the order is total and consistent with arithmetic: cmp is reflexive, antisymmetric, transitive, total,
+   Eq exactly on identical digit arrays, Lt exactly when the values differ by a positive amount ---- *)
+From Bnum.Proofs Require Import CmpOrder.
+Theorem C07_U_cmp_refl : forall w n a, 0 <= w -> wf w n a -> ucmp a a = Eq.
+Proof. intros w n a Hw; exact (ucmp_refl w n Hw a). Qed.
+Print Assumptions C07_U_cmp_refl.
+Theorem C07_U_cmp_antisym : forall w n a b, 0 <= w -> wf w n a -> wf w n b -> ucmp b a = CompOpp (ucmp a b).
+Proof. intros w n a b Hw; exact (ucmp_antisym w n Hw a b). Qed.
+Print Assumptions C07_U_cmp_antisym.
+Theorem C07_U_cmp_eq_iff : forall w n a b, 0 <= w -> wf w n a -> wf w n b -> (ucmp a b = Eq <-> a = b).
+Proof. intros w n a b Hw; exact (ucmp_eq_iff w n Hw a b). Qed.
+Print Assumptions C07_U_cmp_eq_iff.
+Theorem C07_U_cmp_trans : forall w n a b c o, 0 <= w -> wf w n a -> wf w n b -> wf w n c ->
+  ucmp a b = o -> ucmp b c = o -> ucmp a c = o.
+Proof. intros w n a b c o Hw; exact (ucmp_trans w n Hw a b c o). Qed.
+Print Assumptions C07_U_cmp_trans.
+Theorem C07_U_cmp_total : forall w n a b, 0 <= w -> wf w n a -> wf w n b ->
+  (ucmp a b = Lt /\ ucmp b a = Gt) \/ (a = b /\ ucmp a b = Eq) \/ (ucmp a b = Gt /\ ucmp b a = Lt).
+Proof. intros w n a b Hw; exact (ucmp_total w n Hw a b). Qed.
+Print Assumptions C07_U_cmp_total.
+Theorem C07_U_cmp_lt_arith : forall w n a b, 0 <= w -> wf w n a -> wf w n b ->
+  (ucmp a b = Lt <-> exists d, 0 < d /\ uval w b = uval w a + d).
+Proof. intros w n a b Hw; exact (ucmp_lt_arith w n Hw a b). Qed.
+Print Assumptions C07_U_cmp_lt_arith.
+Theorem C07_I_cmp_refl : forall w n a, 0 < w -> (0 < n)%nat -> wf w n a -> icmp w a a = Eq.
+Proof. intros w n a Hw Hn; exact (icmp_refl w n Hw Hn a). Qed.
+Print Assumptions C07_I_cmp_refl.
+Theorem C07_I_cmp_antisym : forall w n a b, 0 < w -> (0 < n)%nat -> wf w n a -> wf w n b -> icmp w b a = CompOpp (icmp w a b).
+Proof. intros w n a b Hw Hn; exact (icmp_antisym w n Hw Hn a b). Qed.
+Print Assumptions C07_I_cmp_antisym.
+Theorem C07_I_cmp_eq_iff : forall w n a b, 0 < w -> (0 < n)%nat -> wf w n a -> wf w n b -> (icmp w a b = Eq <-> a = b).
+Proof. intros w n a b Hw Hn; exact (icmp_eq_iff w n Hw Hn a b). Qed.
+Print Assumptions C07_I_cmp_eq_iff.
+Theorem C07_I_cmp_trans : forall w n a b c o, 0 < w -> (0 < n)%nat -> wf w n a -> wf w n b -> wf w n c ->
+  icmp w a b = o -> icmp w b c = o -> icmp w a c = o.
+Proof. intros w n a b c o Hw Hn; exact (icmp_trans w n Hw Hn a b c o). Qed.
+Print Assumptions C07_I_cmp_trans.
+Theorem C07_I_cmp_total : forall w n a b, 0 < w -> (0 < n)%nat -> wf w n a -> wf w n b ->
+  (icmp w a b = Lt /\ icmp w b a = Gt) \/ (a = b /\ icmp w a b = Eq) \/ (icmp w a b = Gt /\ icmp w b a = Lt).
+Proof. intros w n a b Hw Hn; exact (icmp_total w n Hw Hn a b). Qed.
+Print Assumptions C07_I_cmp_total.
+Theorem C07_I_cmp_lt_arith : forall w n a b, 0 < w -> (0 < n)%nat -> wf w n a -> wf w n b ->
+  (icmp w a b = Lt <-> exists d, 0 < d /\ sval w b = sval w a + d).
+Proof. intros w n a b Hw Hn; exact (icmp_lt_arith w n Hw Hn a b). Qed.
+Print Assumptions C07_I_cmp_lt_arith.
+Example C07_order_nonvacuous : wf 8 2 [255; 0] /\ wf 8 2 [0; 1] /\ ucmp [255; 0] [0; 1] = Lt /\ icmp 8 [0; 128] [255; 127] = Lt.
+Proof. split; [apply wfb_wf; reflexivity|]. split; [apply wfb_wf; reflexivity|]. split; reflexivity. Qed.
+
 (* ---- hashing: the derived Hash feeds `hash_stream` (the digit array in order) to the Hasher ---- *)
 Theorem C07_hash_stream : forall a b : list Z, a = b -> hash_stream a = hash_stream b.
 Proof. exact hash_eq_stream. Qed.
